@@ -49,8 +49,9 @@ def scenarios(tier, seed):
             out.append(dict(n_jobs=3, managed=managed, return_as="generator", hist="ok,idle,ok,ok", point="idle", action=action, victims=victims))
     if quick:
         from ..parcommon import rotate_slice
-        must = [s for s in out if s["action"] == "SIGKILL" and s["victims"] == "first" and s["hist"] in ("fault,ok", "ok,idle,ok,ok")
-                and s["n_jobs"] == 2 and not s["managed"] and s["return_as"] == "list"]
+        must = [s for s in out if s["victims"] == "first" and s["hist"] in ("fault,ok", "ok,idle,ok,ok")
+                and s["n_jobs"] == 2 and not s["managed"] and s["return_as"] == "list"
+                and (s["action"] == "SIGKILL" or (s["action"] in ("exit0", "exit1") and s["point"] in ("task-start", "mid-task", "worker.after_run")))]
         rest = [s for s in out if s not in must]
         out = must + rotate_slice(rest, seed, 3)
     return out
